@@ -16,10 +16,18 @@ checked against the allowed-to-change set A of the independent layout model:
 
 Operations: write a new message (any length), format(wipe=None|0..255).
 
+  T3S      (leg t3s, part of leg history) FeliCa Standard card divided into
+           several systems (vlib/simfelica_std.py): blocks 0..Nmaxb of
+           service 0 of the NDEF system 12FCh (format(): every block of that
+           service); nothing in another service or another system
+
 `history` leg: several operations on ONE tag object (tag.ndef, has_changed,
-assignments, format(version, wipe), optionally with a communication fault at
-a command position); every operation is judged like above against the
-layout the tag memory holds when the operation starts - see run_history.
+assignments, format(version, wipe), dump(), optionally with a communication
+fault at a command position); every write / format is judged like above
+against the layout the tag memory holds when the operation starts - see
+run_history.  dump() is not judged itself; it is in the histories because it
+changes the state of the tag object (FelicaStandard.dump() activates every
+system of the card in turn, also when it is aborted by a fault half way).
 """
 import contextlib
 import io
@@ -30,6 +38,7 @@ import nfc.tag
 
 from vlib.engine import Leg, Violation, unexpected
 from props import tagcommon as tc
+from props import tagcommon_r4b as tc4
 
 PROPERTY = "C03"
 LEVEL = "exploration"
@@ -39,6 +48,15 @@ ASSUMPTIONS = [
     "format() on personalities that re-create the management data (Topaz, "
     "Topaz-512, Type 3) is judged against what its docstring documents",
     "FeliCa Lite and NTAG personalities are not simulated here",
+    "multi-system FeliCa Standard cards: a command is executed in the system "
+    "its IDm belongs to (upper nibble of IDm[0] = system number); services "
+    "that need a key refuse plain access; cyclic / purse semantics are not "
+    "modelled",
+    "history leg: dump() itself is not judged (Type 1 dump() is documented "
+    "to overwrite and restore dynamic memory blocks); a write through the "
+    "cached NDEF object may raise TagCommandError without an injected fault "
+    "while dump() has left the tag object on another system of a "
+    "multi-system card (nothing is written then)",
     "history leg: the allowed set of an operation is derived by the "
     "independent model from the memory image at the start of that "
     "operation; a history ends when format() raised (management data may be "
@@ -140,6 +158,10 @@ def run(case, ctx):
         if desc["kind"] in ("t3t", "t3e"):
             allowed = set(range(0, len(before)))
             args = {"version": 0x10, "wipe": wipe}
+        elif desc["kind"] == "t3s":
+            # every block of service 0 of the NDEF system, nothing else
+            allowed = set(range(b.ndef_span[0], sum(b.ndef_span)))
+            args = {"version": 0x10, "wipe": wipe}
         else:
             args = {"wipe": wipe}
         if product.startswith("Topaz 512"):
@@ -195,6 +217,8 @@ def run(case, ctx):
 
 
 def _region(b, a):
+    if hasattr(b, "region_of"):
+        return b.region_of(a)
     if b.kind in ("t1t", "t2t"):
         i = b.info
         if a < i["data_start"]:
@@ -216,6 +240,8 @@ def format_allowed(b, product, wipe, area):
     area"""
     if b.kind in ("t3t", "t3e"):
         return set(range(0, len(b.tag.mem)))
+    if b.kind == "t3s":
+        return set(range(b.ndef_span[0], sum(b.ndef_span)))
     if product.startswith("Topaz 512"):
         allowed = set(range(8, 24))
         if wipe is not None:
@@ -235,15 +261,29 @@ class _Watch(object):
         self.writers = 0            # operations that sent write commands
         self.faulted = False
         self.judged = 0
+        self.dumped = False         # a dump() came before a write / format
+        self.elsewhere = False      # multi-system card: dump() walked off
 
     def before(self, i, op, tag):
         b = self.b
+        if b.kind == "t3s" and op["op"] in ("write", "format"):
+            # which system of the card the last Polling activated
+            on = b.tag.polled[-1] if b.tag.polled else None
+            self.ctx.label("t3s:%s%s-with-%s-system-active" % (
+                op["op"], "-after-dump" if self.dumped else "",
+                "ndef" if on == 0x12FC else "another"))
         self.image = bytes(b.tag.mem)
         b.tag.wlog[:] = []
         self.area = tc.current_area(b, self.image)
         if op["op"] == "format":
             self.allowed = format_allowed(
                 b, getattr(tag, "_product", ""), op["wipe"], self.area)
+        elif op["op"] == "dump":
+            # not an NDEF write or format: the operation itself is not
+            # judged (Type 1 dump() is documented to overwrite and restore
+            # blocks of dynamic memory); what matters is what a later write
+            # or format does through the same tag object
+            self.allowed = "not-judged"
         else:
             self.allowed = None if self.area is None else set(self.area[0])
 
@@ -251,12 +291,29 @@ class _Watch(object):
         b, ctx, desc = self.b, self.ctx, self.desc
         name = out["op"]
         ctx.label("%s:%s" % (name, out["status"]))
+        if name == "dump":
+            self.dumped = True
+            # dump() of a FeliCa Standard card activates one system after
+            # the other; the tag object is left on the last one it visited
+            self.elsewhere = b.kind == "t3s" and bool(b.tag.polled) and \
+                b.tag.polled[-1] != 0x12FC
+        elif name == "changed" and out["status"] == "returned":
+            self.elsewhere = False      # has_changed re-polls for 12FCh
         if out["status"] == "error" and out["hits"] == 0 and \
                 not self.faulted:
-            raise unexpected(out["error"], name + "-raises",
-                             detail="op %d, no fault injected so far" % i)
+            if self.elsewhere and name == "write":
+                # the cached NDEF object refuses while the tag object is on
+                # another system (nothing is sent to the NDEF service)
+                ctx.label("write:error-after-dump-left-on-other-system")
+            else:
+                raise unexpected(out["error"], name + "-raises",
+                                 detail="op %d, no fault injected so far" % i)
         if out["hits"]:
             self.faulted = True
+        if name == "dump":
+            if b.tag.wlog:
+                ctx.label("dump-sent-write-commands")
+            return None
         if self.allowed is None:
             ctx.label("history-ends:no-ndef-management-data")
             return "stop"
@@ -283,6 +340,8 @@ class _Watch(object):
                                 "wholly outside the NDEF area (%s); %r %r"
                                 % (i, name, addr, ln, where, op, desc))
         self.judged += 1
+        if name in ("write", "format") and self.dumped:
+            ctx.label("%s-after-dump" % name)
         if b.tag.wlog:
             self.writers += 1
             if self.writers >= 2:
@@ -306,6 +365,8 @@ class _Watch(object):
 
 
 def _region_now(b, lay, a):
+    if hasattr(b, "region_of"):
+        return b.region_of(a)
     if lay is None:
         return "beyond-ndef-area"
     if a < lay["data_start"]:
@@ -341,17 +402,17 @@ def run_history(case, ctx):
     ctx.note({"judged": w.judged, "writers": w.writers})
 
 
-def _leg(name, desc, quick, thorough):
+def _leg(name, desc, quick, thorough, what=None):
     return Leg(name, run=run, gen=lambda tier: case_strategy(desc),
                quick=quick, thorough=thorough, shards_quick=3,
                shards_thorough=16, nt_floor=0.1,
-               rule="%s layouts x old message x (write of any length | "
+               rule="%s x old message x (write of any length | "
                     "format with wipe None/0..255); oracle = byte diff of the "
                     "whole physical image within the allowed set and every "
                     "write command intersecting it; non-trivial = reserved "
                     "range adjacent to/inside the touched span, write ends "
                     "within one unit of the data-area end, or wipe set."
-                    % name)
+                    % (what or name + " layouts"))
 
 
 LEGS = [
@@ -362,23 +423,37 @@ LEGS = [
     _leg("t3e", tc.t3t_desc("t3e"), 400, 8000),
     _leg("t4t", tc.t4t_desc().map(
         lambda d: dict(d, fsize=min(d["fsize"], 4000))), 600, 10000),
+    _leg("t3s", tc4.t3s_desc(), 400, 8000,
+         what="FeliCa Standard cards divided into 2-4 systems (own IDm and "
+              "block memory each; the NDEF system 12FCh at any position, "
+              "optionally with further services; the other systems with "
+              "random / cyclic / purse services, service 0 mostly readable "
+              "and writeable without key; IC codes of Standard and Mobile "
+              "products) with Type 3 layouts in service 0 of the NDEF system"),
     Leg("history", run=run_history,
         gen=lambda tier: st.fixed_dictionaries({
-            "tag": tc.hist_desc(t2t=3, t1t=5), "old": tc.hist_len(False),
-            "old_seed": st.integers(0, 3), "ops": tc.hist_ops(False)}),
+            "tag": tc.hist_desc(t2t=3, t1t=5, t3s=3), "old": tc.hist_len(False),
+            "old_seed": st.integers(0, 3),
+            "ops": tc.hist_ops(False, dump=2)}),
         quick=4800, thorough=60000, shards_quick=8, shards_thorough=16,
         nt_floor=0.1,
         rule="constructed layouts of every tag type (Topaz / Topaz-512 with "
              "their real memory size, NDEF TLV wherever the layout strategy "
-             "puts it) x old message x 2..7 operations on ONE tag object from "
+             "puts it; one fifth multi-system FeliCa Standard cards as in "
+             "leg t3s) x old message x 2..7 operations on ONE tag object from "
              "{tag.ndef, has_changed, assign octets of any length (or the "
-             "last attempted octets again), format(version, wipe)}, each "
+             "last attempted octets again), format(version, wipe), "
+             "tag.dump() (not judged itself: it is no NDEF write; on a "
+             "multi-system card it activates every system in turn)}, each "
              "optionally with a communication fault (timeout / transmission / "
              "protocol; command or response lost; burst 1, 2, 3 or until the "
              "operation ends) starting at its k-th exchange, k reduced modulo "
              "the operation's exchange count in a fault-free rehearsal; every "
              "operation is judged (byte diff + write commands against the "
-             "allowed set of the layout present at its start); non-trivial = "
+             "allowed set of the layout present at its start; on a "
+             "multi-system card nothing outside service 0 of the NDEF system "
+             "may change and no write command may address another system or "
+             "service); non-trivial = "
              "at least two operations of the history sent write commands; "
              "distinct by case hash."),
 ]
